@@ -53,12 +53,15 @@ Definition ledger_step (g : ledger) (o : op) (x : out) : ledger :=
   | _, _ => g
   end.
 
-(* what the caller presented as (client_id, client_secret) *)
+(* Which identity a request puts forward, and with what proof.  A request may carry
+   several (assertion, Basic header, form fields); the authenticated client is the one
+   whose credential is verified: the assertion if there is one, else the Basic header,
+   else the form fields.  [presented] = the (client_id, client_secret) pair that counts
+   when there is no assertion. *)
 Definition presented (cr : cred) : option (string * string) :=
-  match cr with
-  | NoCred => Some ("", "")
-  | Basic i s | Post i s => Some (i, s)
-  | Assertion _ => None
+  match cr_assert cr with
+  | Some _ => None
+  | None => Some (match cr_basic cr with Some p => p | None => (cr_id cr, cr_sec cr) end)
   end.
 
 (* "authenticated as - or, for public clients, identifies as - client id" *)
@@ -68,7 +71,7 @@ Definition cred_proves (cf : cfg) (cr : cred) (id : string) : bool :=
   | Some c =>
       match c_auth c with
       | AM_None => match presented cr with Some (i, _) => String.eqb i id | None => false end
-      | AM_PKJWT => match cr with Assertion (Some i) => String.eqb i id | _ => false end
+      | AM_PKJWT => match cr_assert cr with Some (Some i) => String.eqb i id | _ => false end
       | _ => match presented cr with
              | Some (i, s) => String.eqb i id && String.eqb s (c_secret c)
              | None => false
